@@ -79,7 +79,8 @@ def step (st : St) (ts : List String) : St × String :=
       let hit := st.listing.recorded.any (fun r => r.path == path)
       let es := if verb == "rmfrag" then st.listing.entries.filter (fun e => e.path != path)
                 else st.listing.entries.map (fun e => if e.path == path then { e with desc := "stray", sha := "tampered" } else e)
-      ({ st with damaged := st.damaged || hit, strayPresent := st.strayPresent || !hit,
+      -- removing a file the checkpoint does not record cannot make the directory worse; corrupting one keeps it unexpected
+      ({ st with damaged := st.damaged || hit, strayPresent := st.strayPresent || (!hit && verb == "corrupt"),
                  listing := { st.listing with entries := es } }, "ok")
     else (st, "reject bad-output")
   | [_, _], ["none"] => (st, "ok")
